@@ -194,6 +194,11 @@ fn settings_menu(dst: u8, rich: bool) -> Vec<Setting> {
         v.push(Setting::mods(ModSpec::HoIn(None)));
         v.push(Setting::mods(ModSpec::Invert));
     }
+    if dst == 2 {
+        // an explicit override that disagrees with the mods, both ways
+        v.push(Setting { hr_offsets: Some(true), ..Setting::nm() });
+        v.push(Setting { hr_offsets: Some(false), ..Setting::bits(settings::HR) });
+    }
     if rich {
         v.push(Setting::bits(settings::EZ | settings::HT));
         v.push(Setting { lazer: Some(false), ..Setting::mods(ModSpec::Classic(None)) });
@@ -202,9 +207,6 @@ fn settings_menu(dst: u8, rich: bool) -> Vec<Setting> {
         if dst == 3 {
             v.push(Setting::mods(ModSpec::HoldOff));
             v.push(Setting { lazer: Some(false), ..Setting::bits(settings::KEY7) });
-        }
-        if dst == 2 {
-            v.push(Setting { hr_offsets: Some(true), ..Setting::nm() });
         }
     }
     v
